@@ -453,7 +453,22 @@ class Mx:
     def middleCols(s, j, n): return s.view(0, _i(j), s.r, _i(n))
     def middleRows(s, i, n): return s.view(_i(i), 0, _i(n), s.c)
     def transpose(s): return Mx(s.c, s.r, [[s.g(i, j) for i in range(s.r)] for j in range(s.c)])
-    def selfadjointViewLower(s): return Mx(s.r, s.c, [[s.g(max(i, j), min(i, j)) for j in range(s.c)] for i in range(s.r)])
+    def selfadjointViewLower(s):
+        v = Mx(s.r, s.c, [[s.g(max(i, j), min(i, j)) for j in range(s.c)] for i in range(s.r)])
+        v.sa_src = s          # the matrix whose lower triangle this view stands for (rankUpdate writes through)
+        return v
+    def rankUpdate(s, u, alpha=1):
+        """contract of SelfAdjointView<Lower>::rankUpdate(u, alpha): the viewed matrix becomes M + alpha * u * u^T; only its lower triangle is written"""
+        src = getattr(s, 'sa_src', None)
+        if src is None:
+            raise Unsupported('rankUpdate on something else than selfadjointView<Lower>()')
+        if u.r != src.r or src.r != src.c:
+            raise Unsupported('rankUpdate: %dx%d update of a %dx%d matrix' % (u.r, u.c, src.r, src.c))
+        uut = u * u.transpose()
+        for i in range(src.r):
+            for j in range(i + 1):
+                src.p(i, j, src.g(i, j) + D.lift(alpha) * uut.g(i, j))
+        return s
     def diagonal(s, k=0):
         k = _i(k)
         if k == 0:
@@ -1655,6 +1670,8 @@ class Exec:
             return obj.scalar() if isinstance(obj, Mx) else obj
         argn = [a for a in n['inner'][1:] if a['kind'] != 'CXXDefaultArgExpr']
         key = name
+        if key + '@' in s.cb:          # contract that depends on the instantiation: the callback also gets the call node (its type is the instantiated return type)
+            return s.cb[key + '@'](obj, n, *[rval(s.expr(a)) for a in argn])
         if key in s.cb:
             return s.cb[key](obj, *[rval(s.expr(a)) for a in argn])
         if obj is s.this or (isinstance(obj, dict) and obj.get('__class__') in s.cb.get('exec_classes', ())):
@@ -1820,6 +1837,10 @@ class Exec:
             for j, x in enumerate(src):
                 dst.lst[dst.i + j] = args[3](x) if name == 'transform' else x
             return None
+        if name in ('all_of', 'any_of', 'none_of') and len(args) == 3 and isinstance(args[0], ListIt):
+            # std::all_of / any_of / none_of over a vector range, by their definitions (short-circuit order is irrelevant for predicates without side effects)
+            res = [s.truth(args[2](x)) for x in args[0].lst[args[0].i:args[1].i]]
+            return all(res) if name == 'all_of' else (any(res) if name == 'any_of' else not any(res))
         if name in ('make_unique', 'make_shared'):
             m = re.search(r'(?:unique_ptr|shared_ptr|unique_ptr_t)<\s*(?:[\w:]*::)?(\w+)\s*>', n['type'].get('qualType', ''))
             if not m:
@@ -1827,6 +1848,15 @@ class Exec:
             return {'__class__': m.group(1)}
         m = s.pick_method(name, len(argn))
         if m is not None and name in s.cb.get('exec_functions', ()):
+            c = n['inner'][0]
+            while c.get('kind') != 'DeclRefExpr' and c.get('inner'):
+                c = c['inner'][0]
+            rid = (c.get('referencedDecl') or {}).get('id')
+            hit = [f for f in s.methods.get(name, []) if f.get('id') == rid]      # the instantiation / overload the call resolves to
+            if hit:
+                m = hit[0]
+            elif len(set(f.get('id') for f in s.methods.get(name, []))) > 1:
+                raise Unsupported('call of %s: %d candidates and none is the referenced declaration' % (name, len(s.methods.get(name, []))))
             return s.call_fn(m, args, s.this)
         raise Unsupported('call of %s at line %s' % (name, src_line(n)))
 
